@@ -10,6 +10,7 @@ import (
 	"github.com/syndtr/goleveldb/leveldb"
 	"github.com/syndtr/goleveldb/leveldb/iterator"
 	"github.com/syndtr/goleveldb/leveldb/opt"
+	"github.com/syndtr/goleveldb/leveldb/storage"
 	"github.com/syndtr/goleveldb/leveldb/util"
 	"verif/model"
 	"verif/vsched"
@@ -262,6 +263,8 @@ func (w *World) enabled(op string) bool {
 	switch t {
 	case "re", "ro":
 		return w.Tr == nil && len(w.Snaps) == 0 && len(w.Iters) == 0
+	case "reT":
+		return w.Tr != nil && len(w.Snaps) == 0 && len(w.Iters) == 0
 	case "snap":
 		return len(w.Snaps) < 2
 	case "rel":
@@ -412,6 +415,14 @@ func (w *World) Apply(op string) {
 		w.DB = nil
 		if err := w.Open(); err != nil {
 			w.violate("reopen after clean close failed: %v", err)
+		}
+	case "reT":
+		// Close with an open transaction (Close discards it), then reopen
+		w.opErr("Close", w.DB.Close())
+		w.DB = nil
+		w.Tr, w.TrM = nil, nil
+		if err := w.Open(); err != nil {
+			w.violate("reopen after close with open transaction failed: %v", err)
 		}
 	case "snap":
 		s, err := w.DB.GetSnapshot()
@@ -681,6 +692,39 @@ func (w *World) Close() {
 	w.ReleaseViews()
 	w.DB.Close()
 	w.DB = nil
+}
+
+// CheckResidue: once background work has settled and no view is held, storage must hold
+// exactly the live tables, the live journal(s), the live manifest and nothing else.
+func (w *World) CheckResidue(what string) {
+	if w.DB == nil || len(w.Snaps) > 0 || len(w.Iters) > 0 || w.Tr != nil {
+		return
+	}
+	vsched.Quiesce()
+	st := w.DB.VerifState()
+	live := map[storage.FileDesc]bool{}
+	for _, t := range st.Tables {
+		live[storage.FileDesc{Type: storage.TypeTable, Num: t.Num}] = true
+	}
+	live[storage.FileDesc{Type: storage.TypeJournal, Num: st.JournalNum}] = true
+	if st.FrozenLen >= 0 {
+		live[storage.FileDesc{Type: storage.TypeJournal, Num: st.FrozenJournal}] = true
+	}
+	live[storage.FileDesc{Type: storage.TypeManifest, Num: st.ManifestNum}] = true
+	for _, fd := range w.Stor.Files() {
+		if !live[fd] {
+			w.violate("%s: storage holds %v which is not a live table, journal or manifest (live: %d tables, journal %d, manifest %d)", what, fd, len(st.Tables), st.JournalNum, st.ManifestNum)
+			return
+		}
+		delete(live, fd)
+	}
+	for fd := range live {
+		w.violate("%s: live file %v is missing from storage", what, fd)
+		return
+	}
+	if m := w.Stor.Meta(); m.Num != st.ManifestNum || m.Type != storage.TypeManifest {
+		w.violate("%s: CURRENT names %v, live manifest is %d", what, m, st.ManifestNum)
+	}
 }
 
 // Layout summarises where data sits (for non-vacuity statistics).
